@@ -558,7 +558,7 @@ func (g *igen) directedObject(m map[string]any, depth int) any {
 				delete(out, ks[len(ks)-1])
 				ks = ks[:len(ks)-1]
 			}
-			for len(out) < b && len(out) < 6 {
+			for tries := 0; len(out) < b && len(out) < 6 && tries < 24; tries++ { // (the name pool may hold fewer than 6 names)
 				out[Pick(r, g.names)] = g.free(depth + 2)
 			}
 		}
